@@ -373,7 +373,13 @@ def c04(ctx, t0):
         r['counters']['agent_race_reports'] = nrep
         r['violations'] = (r.get('violations') or []) + vio
         res.append(r)
-    floors = {'verdicts:sasl': (counters(res, 'verdicts:sasl'), 200), 'verdicts:basic': (counters(res, 'verdicts:basic'), 200), 'verdicts:api': (counters(res, 'verdicts:api'), 150),
+    if want(ctx, 'tls-and-activation'):
+        res.append(ctx.run_child('tls-and-activation', [hx, 'c04tls'], T(ctx, 600, 1800), extra_env={'VERIF_AGENT_BIN': 'whawty-auth-race'}))
+    floors = {'tls_verdicts:run:ldaps': (counters(res, 'tls_verdicts:run:ldaps'), 40), 'tls_verdicts:runsa:ldaps': (counters(res, 'tls_verdicts:runsa:ldaps'), 40),
+              'tls_verdicts:runsa:sasl': (counters(res, 'tls_verdicts:runsa:sasl'), 30), 'tls_verdicts:run:basic-https': (counters(res, 'tls_verdicts:run:basic-https'), 30),
+              'tls_verdicts:runsa:ldap-starttls': (counters(res, 'tls_verdicts:runsa:ldap-starttls'), 40), 'tls_store_accepts': (counters(res, 'tls_store_accepts'), 100),
+              'tls_concurrent_verdicts': (counters(res, 'tls_concurrent_verdicts'), 100),
+              'verdicts:sasl': (counters(res, 'verdicts:sasl'), 200), 'verdicts:basic': (counters(res, 'verdicts:basic'), 200), 'verdicts:api': (counters(res, 'verdicts:api'), 150),
               'verdicts:ldap': (counters(res, 'verdicts:ldap'), 200), 'verdicts:cli': (counters(res, 'verdicts:cli'), 30), 'store_accepts': (counters(res, 'store_accepts'), 100),
               'concurrent_requests': (counters(res, 'concurrent_requests'), 500), 'internal_error_probes': (counters(res, 'internal_error_probes'), 20)}
     return finish(ctx, 'exploration', res, COMMON_ASSUME + [
